@@ -733,8 +733,9 @@ theorem loop_spec (fuel : Nat) : ∀ (input : List Nat) (moved : Bool) (cs : Nat
           obtain ⟨hd1, c2, r2, rfl, hd2⟩ := adm.2.2.2 hn
           have h1 : 48 ≤ c ∧ c ≤ 57 := by simpa [isDigitCp] using hd1
           have h2 : 48 ≤ c2 ∧ c2 ≤ 57 := by simpa [isDigitCp] using hd2
-          have hg : ¬ (c < 48 ∨ c2 < 48 ∨ (c - 48) * 10 + (c2 - 48) ≥ 107) := by omega
-          simp only [show ¬ (99 = 101) by decide, show ¬ (99 = 100) by decide, if_false, hg] at h
+          have hg2 : ¬ (c2 < 48 ∨ c2 > 57) := by omega
+          have hg : ¬ (c < 48 ∨ (c - 48) * 10 + (c2 - 48) ≥ 107) := by omega
+          simp only [show ¬ (99 = 101) by decide, show ¬ (99 = 100) by decide, if_false, hg, hg2] at h
           obtain ⟨em', ho, hmv', hrd⟩ := ih r2 true 99 _ out (fun x hx => hrest x (by simp [hx]))
             (Or.inl rfl) (Or.inl rfl) h
           refine ⟨((c - 48) * 10 + (c2 - 48), true) :: em', by simp [ho], ?_, ?_⟩
@@ -917,8 +918,9 @@ theorem loop_idx_lt (fuel : Nat) : ∀ (input : List Nat) (moved : Bool) (cs : N
         · obtain ⟨hd1, c2, r2, rfl, hd2⟩ := adm.2.2.2 hn
           have h1 : 48 ≤ c ∧ c ≤ 57 := by simpa [isDigitCp] using hd1
           have h2 : 48 ≤ c2 ∧ c2 ≤ 57 := by simpa [isDigitCp] using hd2
-          have hg : ¬ (c < 48 ∨ c2 < 48 ∨ (c - 48) * 10 + (c2 - 48) ≥ 107) := by omega
-          simp only [show ¬ (99 = 101) by decide, show ¬ (99 = 100) by decide, if_false, hg] at h
+          have hg2 : ¬ (c2 < 48 ∨ c2 > 57) := by omega
+          have hg : ¬ (c < 48 ∨ (c - 48) * 10 + (c2 - 48) ≥ 107) := by omega
+          simp only [show ¬ (99 = 101) by decide, show ¬ (99 = 100) by decide, if_false, hg, hg2] at h
           exact ih r2 true 99 _ out (fun x hx => hrest x (by simp [hx])) (Or.inl rfl)
             (by intro e he
                 simp only [List.mem_cons] at he
@@ -1007,8 +1009,9 @@ theorem loop_spec_forced (f : Nat) (hf : f = 99 ∨ f = 100 ∨ f = 101) (fuel :
         | cons c2 r2 =>
           have h1 := adm.2.2 rfl
           have h2 := (charOk_forced 99 c2 (Or.inl rfl) (hrest c2 (by simp)) (hokr c2 (by simp))).2.2 rfl
-          have hg : ¬ (c < 48 ∨ c2 < 48 ∨ (c - 48) * 10 + (c2 - 48) ≥ 107) := by omega
-          simp only [hg, if_false] at h
+          have hg2 : ¬ (c2 < 48 ∨ c2 > 57) := by omega
+          have hg : ¬ (c < 48 ∨ (c - 48) * 10 + (c2 - 48) ≥ 107) := by omega
+          simp only [hg, hg2, if_false] at h
           obtain ⟨em', ho, hmv', hlt', hrd⟩ := ih r2 true _ out (fun x hx => hrest x (by simp [hx]))
             (fun x hx => hokr x (by simp [hx])) (Or.inl rfl) h
           refine ⟨((c - 48) * 10 + (c2 - 48), true) :: em', by simp [ho], ?_, ?_, ?_⟩
